@@ -158,9 +158,9 @@ def h_fixed(ctx, ndates):
     ctx.prove("C15.fixed.each_normal_used_once", len(normals) == ndates and len(proc._path_simulation._brownian_increments) == 0, info=info)
 
 
-def h_jumptimes(ctx, ndates):
+def h_jumptimes(ctx, ndates, pmax=2):
     shims.RNG.reset()
-    shims.POISSON_MAX[0] = 2
+    shims.POISSON_MAX[0] = pmax
     sigma = ctx.real("sigma", 0)
     lam = ctx.real("lam")
     ctx.assume(lam > 0)
@@ -355,8 +355,8 @@ def harnesses(tier):
     hs = [Harness("concrete", concrete_validation, concrete=True)]
     for nd in ((1, 2) if q else (1, 2, 3)):
         hs.append(Harness(f"fixed.{nd}", h_fixed, {"ndates": nd}, max_paths=4000, batch=20))
-    for nd in ((1, 2) if q else (1, 2, 3)):
-        hs.append(Harness(f"jumptimes.{nd}", h_jumptimes, {"ndates": nd}, max_paths=20000, batch=20))
+    for nd, pm in (((1, 2), (2, 2)) if q else ((1, 2), (2, 2), (1, 4), (3, 1))):
+        hs.append(Harness(f"jumptimes.{nd}.p{pm}", h_jumptimes, {"ndates": nd, "pmax": pm}, max_paths=20000, batch=20))
     for which in ("levyprocess", "coupling"):
         for nj in ((1, 2) if q else (1, 2, 3)):
             hs.append(Harness(f"finer.{which}.{nj}", h_finer, {"which": which, "njumps": nj}, max_paths=20000, batch=20))
@@ -371,7 +371,8 @@ EXPECT = ["C15.fixed.jump_component_is_running_sum_of_increments", "C15.fixed.di
 
 
 def main(tier):
-    bounds = {"dates": "<= 2 (quick) / 3 (thorough) product dates, symbolic", "jumps": "<= 2 jumps per interval (Poisson model), <= 2/3 jump times for the refinement, every gap below 3 epsilon",
+    bounds = {"dates": "<= 2 (quick) / 3 (thorough) product dates, symbolic", "jumps": "jump-time mode: (dates, jumps per interval) <= (1,2), (2,2) quick; plus (1,4), (3,1) thorough; fixed-date mode <= 2 jumps per interval; "
+              "<= 2/3 jump times for the refinement, every gap below 3 epsilon",
               "outside": "copula and coupled simulators' path assembly (same helpers; their jump values are C01/C03), float rounding of cumulative sums"}
     return run_check(PID, tier, harnesses(tier), expect=EXPECT, bounds=bounds,
                      assumptions=COMMON_ASSUMPTIONS + ["RNG model: every draw is a fresh symbol in its range; Poisson counts in [0,2]", "sqrt as UF with sqrt(t)^2 = t"])
